@@ -5,7 +5,9 @@ from __future__ import annotations
 import random
 
 MODES = ('async', 'thread', 'inline', 'process')
-ALL_MODES = ('async', 'async', 'thread', 'thread', 'inline', 'inline', 'process', 'process', 'thread_tag', 'custom_tag')
+ALL_MODES = ('async', 'async', 'thread', 'thread', 'inline', 'inline', 'process', 'process', 'thread_tag', 'custom_tag',
+             'async_tagged')
+CORO_MODES = ('async', 'async_tagged')
 LITERALS = [None, 0, '', False, 7, 'lit']
 
 DEFAULT = dict(
@@ -385,9 +387,30 @@ class Gen:
         return prog
 
 
+def add_generics(prog, rng, p=0.12):
+    """Turn some plain nodes into build_node() derivatives of a generic base class (same behaviour)."""
+    import copy
+    for nid in list(prog['order']):
+        n = prog['nodes'][nid]
+        if nid == prog['input'] or n.get('start_of') or n.get('kind', 'plain') != 'plain' or not n.get('params'):
+            continue
+        if rng.random() < p:
+            base_id = 'G' + nid[1:]
+            base = copy.deepcopy(n)
+            base['id'] = base_id
+            base['generic_base'] = True
+            base['nm'] = ['custom', 'base_' + nid]
+            prog['nodes'][base_id] = base
+            n['generic_of'] = base_id
+            prog['order'].insert(prog['order'].index(nid), base_id)
+    return prog
+
+
 def gen_program(rng, prof=None):
     g = Gen(rng, prof or DEFAULT)
     prog = g.build()
+    if (prof or DEFAULT).get('p_generic', 0.0):
+        add_generics(prog, rng, (prof or DEFAULT)['p_generic'])
     prog['tags'] = sorted(analyze(prog))
     return prog
 
